@@ -104,9 +104,12 @@ def build_page(case, mode: str = "frac"):
 
 # --------------------------------------------------------------------------- canonical dump
 
+UNSCALE = F(1)      # dumps divide every coordinate by this factor (C09 scale runs)
+
+
 def bb(o) -> str:
     try:
-        return ",".join(fs(F(v)) for v in (o.x0, o.y0, o.x1, o.y1))
+        return ",".join(fs(F(v) / UNSCALE) for v in (o.x0, o.y0, o.x1, o.y1))
     except (OverflowError, ValueError, TypeError):     # inf / nan sentinels
         return ",".join(repr(v) for v in (o.x0, o.y0, o.x1, o.y1))
 
@@ -153,6 +156,23 @@ def dump_child(o) -> str:
     if isinstance(o, LTChar):
         return "c%s" % getattr(o, "_vid", "?")
     return "o%s" % getattr(o, "_vid", "?")
+
+
+def line_min_id(l) -> int:
+    from pdfminer.layout import LTChar
+    ids = [getattr(e, "_vid", -1) for e in l if isinstance(e, LTChar)]
+    return min(ids) if ids else -1
+
+
+def canon_dump(c) -> str:
+    """Full dump in which lines of one box that have EQUAL sort key are put in a canonical order."""
+    from pdfminer.layout import LTTextBox, LTTextBoxVertical
+
+    def box(b):
+        vert = isinstance(b, LTTextBoxVertical)
+        ls = sorted(b, key=lambda l: (-(F(l.x1) if vert else F(l.y1)), line_min_id(l)))
+        return "B%s#%d(%s)[%s]" % ("V" if vert else "H", b.index, bb(b), " ".join(dump_line(l) for l in ls))
+    return "P[%s]" % " ".join(box(o) if isinstance(o, LTTextBox) else dump_child(o) for o in c)
 
 
 def box_min_id(b) -> int:
